@@ -23,40 +23,82 @@
 (*   the unparsed remainder starts exactly after the accepted headers and   *)
 (*        loses no available byte of the datagram (link padding may or may  *)
 (*        not be kept);                                                     *)
-(*   every step returns: there is no action "raise".                        *)
+(*   every step returns: there is no action "raise";                       *)
+(*   NESTING DEPTH: headers may nest (802.1Q in 802.1Q, MPLS label stacks,  *)
+(*        IP in GRE in IP, VXLAN in VXLAN, ICMP errors quoting ICMP errors, *)
+(*        extension header chains).  The property does not say how deep a   *)
+(*        parser must follow; it does say that it returns.  So from layer   *)
+(*        NestFloor+1 on every layer MAY be left raw, and the corpus gets a *)
+(*        depth dimension (DeepShapes x DeepSizes, up to 64 kB frames).     *)
 EXTENDS PktGrammarLib, TLC, Json
 
 CONSTANTS PayFull,   \* payload lengths under stacks expanded at full level
           PayEdge,   \* payload lengths under the other stacks
           Pads,      \* link padding lengths tried on full-level stacks
-          CutMode    \* "all": every truncation length; "edges": the boundary lengths only
+          CutMode,   \* "all": every truncation length; "edges": the boundary lengths only
+          DeepSizes  \* frame sizes (bytes) to which the self-nesting stacks are grown
+
+\* no parser is required to follow nesting deeper than this many layers (the deepest stack of the
+\* ordinary corpus, VXLAN-encapsulated UDP, has 7)
+NestFloor == 16
 
 Frames == UNION { { Frame(x.st, p, q)
                     : p \in (IF Leaf(x.st) THEN {0} ELSE IF x.full THEN PayFull ELSE PayEdge),
                       q \in (IF x.full THEN Pads ELSE {0}) }
                   : x \in Stacks }
 
+(* The depth dimension: every group of layers that can contain itself, repeated until the frame  *)
+(* has the wanted size; plus long IPv6 extension header chains (iteration, not nesting).         *)
+E == <<L("eth", "-")>>
+DeepShapes ==
+  { [st |-> E, unit |-> <<L("vlan", "c0")>>, post |-> <<L("ip4", "plain"), L("udp", "-")>>, plen |-> 5],
+    [st |-> E, unit |-> <<L("mpls", "nobos")>>, post |-> <<L("mpls", "bos")>>, plen |-> 5],
+    [st |-> E, unit |-> <<L("vlan", "c0"), L("llc", "snap0")>>, post |-> <<L("arp", "req")>>, plen |-> 0],
+    [st |-> E, unit |-> <<L("ip4", "plain"), L("gre", "plain")>>, post |-> <<L("ip4", "plain"), L("udp", "-")>>, plen |-> 5],
+    [st |-> E, unit |-> <<L("ip4", "plain"), L("gre", "key"), L("eth", "-")>>, post |-> <<L("arp", "req")>>, plen |-> 0],
+    [st |-> E, unit |-> <<L("ip4", "plain"), L("udp", "-"), L("vxlan", "-"), L("eth", "-")>>, post |-> <<L("arp", "req")>>, plen |-> 0],
+    [st |-> E, unit |-> <<L("ip4", "plain"), L("icmp", "-"), L("unreach", "-")>>, post |-> <<L("ip4", "plain"), L("udp", "-")>>, plen |-> 5],
+    [st |-> E, unit |-> <<L("ip4", "plain"), L("icmp", "-"), L("timex", "-")>>, post |-> <<L("ip4", "plain"), L("udp", "-")>>, plen |-> 5],
+    [st |-> E, unit |-> <<L("ip6", "plain"), L("icmp6", "-"), L("unreach6", "-")>>, post |-> <<L("ip6", "plain"), L("udp", "-")>>, plen |-> 5] }
+\* IPv4/IPv6/UDP length fields have 16 bits: a nest that starts with an IP header cannot exceed them
+Reps(x, size) ==
+  LET u   == OffR(x.unit, Len(x.unit) + 1)
+      fix == OffR(x.st, Len(x.st) + 1) + OffR(x.post, Len(x.post) + 1) + x.plen
+      cap == IF size > 65535 THEN 65535 ELSE size
+  IN IF cap > fix THEN (cap - fix) \div u ELSE 0
+ChainFor(size) == IF size >= 65000 THEN "dstx8000" ELSE IF size >= 9000 THEN "dstx1100"
+                  ELSE IF size >= 1500 THEN "dstx180" ELSE "dstx20"
+DeepFrames ==
+  UNION { { DeepFrame(x.st, x.unit, Reps(x, size), x.post, x.plen, 0) : x \in DeepShapes }
+          \cup { Frame(<<L("eth", "-"), L("ip6", ChainFor(size)), L("udp", "-")>>, 5, 0) }
+          : size \in DeepSizes }
 
 ----------------------------------------------------------------------------
 (* Part 2: the parse oracle                                                 *)
 
 CutD(f, c) == Min(c, DEnd(f))                    \* available bytes of the datagram
 Avail(f, c, i) == Max0(CutD(f, c), Off(f, i))
-MustNot(f, c, i) == Avail(f, c, i) < f.need[i]
+MustNot(f, c, i) == Avail(f, c, i) < NeedAt(f, i)
 Complete(f, c, i) ==
-  IF f.st[i].v = "orig" THEN FALSE               \* declares more than was ever there
-  ELSE IF Covered(f.st[i]) THEN c >= DEnd(f) /\ (\A j \in i..Len(f.st) : f.st[j].v # "orig")
-  ELSE Avail(f, c, i) >= f.hl[i]
-Must(f, c, i) == Complete(f, c, i) /\ ~MustNot(f, c, i)
+  IF LayerAt(f, i).v = "orig" THEN FALSE         \* declares more than was ever there
+  ELSE IF Covered(LayerAt(f, i)) THEN c >= DEnd(f) /\ f.lastOrig < i
+  ELSE Avail(f, c, i) >= HlAt(f, i)
+Must(f, c, i) == i <= NestFloor /\ Complete(f, c, i) /\ ~MustNot(f, c, i)
 
 EdgeCuts(f) ==
   {0, Total(f), DEnd(f)} \cup
-  UNION { {Off(f, j) + d : d \in {0, 1}} \cup {Off(f, j) + f.need[j] + d : d \in {0, 1}} \cup
-          {Off(f, j) + f.hl[j] + d : d \in {0, 1}} : j \in 1..Len(f.st) }
-Cuts(f) == IF CutMode = "all" THEN 0..Total(f)
+  UNION { {Off(f, j) + d : d \in {0, 1}} \cup {Off(f, j) + NeedAt(f, j) + d : d \in {0, 1}} \cup
+          {Off(f, j) + HlAt(f, j) + d : d \in {0, 1}} : j \in 1..NL(f) }
+\* deep frames: whole, one byte short, inside the last header, in the middle, just behind the floor, inside Ethernet
+DeepCuts(f) ==
+  {c \in {Total(f), Total(f) - 1, HdrEnd(f), Off(f, NL(f)) + 1, Off(f, (NL(f) \div 2) + 1) + 1,
+          Off(f, Min(NL(f), NestFloor + 2)) + 1, 13} : c <= Total(f)}
+IsDeep(f) == f.n > 0 \/ NL(f) > NestFloor \/ Total(f) > 400
+Cuts(f) == IF IsDeep(f) THEN DeepCuts(f)
+           ELSE IF CutMode = "all" THEN 0..Total(f)
            ELSE {c \in 0..Total(f) : c \in EdgeCuts(f) \/ c + 1 \in EdgeCuts(f)}
 
-VARIABLES fr,      \* the frame: [st, plen, pad]
+VARIABLES fr,      \* the frame
           cut,     \* how many of its bytes are offered
           pc,      \* "offer" "parse" "rest" "print" "dump" "pack" "done"
           flags,   \* verdicts so far, one per layer looked at (TRUE = parsed)
@@ -71,7 +113,7 @@ Log(a, args, exp) ==
   /\ last' = [a |-> a, args |-> args, exp |-> exp]
   /\ hist' = Append(hist, [a |-> a, args |-> args, exp |-> exp])
 
-Init == /\ fr \in Frames
+Init == /\ fr \in Frames \cup DeepFrames
         /\ cut \in Cuts(fr)
         /\ pc = "offer" /\ flags = <<>> /\ rest = NoRest
         /\ last = NoObs /\ hist = <<>>
@@ -80,40 +122,46 @@ Init == /\ fr \in Frames
 Offer ==
   /\ pc = "offer" /\ pc' = "parse"
   /\ UNCHANGED <<fr, cut, flags, rest>>
-  /\ Log("Offer", [st |-> fr.st, plen |-> fr.plen, pad |-> fr.pad, cut |-> cut,
+  /\ Log("Offer", [st |-> fr.st, unit |-> fr.unit, n |-> fr.n, post |-> fr.post,
+                   plen |-> fr.plen, pad |-> fr.pad, cut |-> cut,
                    total |-> Total(fr), offs |-> fr.off],
          [returned |-> TRUE])
 
 Cur == Len(flags) + 1
 Accept ==
-  /\ pc = "parse" /\ Cur <= Len(fr.st) /\ ~MustNot(fr, cut, Cur)
+  /\ pc = "parse" /\ Cur <= NL(fr) /\ ~MustNot(fr, cut, Cur)
   /\ flags' = Append(flags, TRUE)
-  /\ pc' = IF Cur = Len(fr.st) THEN "rest" ELSE "parse"
+  /\ pc' = IF Cur = NL(fr) THEN "rest" ELSE "parse"
   /\ UNCHANGED <<fr, cut, rest>>
-  /\ Log("Layer", [i |-> Cur], [k |-> fr.st[Cur].k, parsed |-> TRUE])
+  /\ Log("Layer", [i |-> Cur], [k |-> LayerAt(fr, Cur).k, parsed |-> TRUE])
 Refuse ==
-  /\ pc = "parse" /\ Cur <= Len(fr.st) /\ ~Must(fr, cut, Cur)
+  /\ pc = "parse" /\ Cur <= NL(fr) /\ ~Must(fr, cut, Cur)
   /\ flags' = Append(flags, FALSE)
   /\ pc' = "rest"
   /\ UNCHANGED <<fr, cut, rest>>
   /\ Log("Layer", [i |-> Cur], [k |-> "?", parsed |-> FALSE])
 
-AllAccepted == Len(flags) = Len(fr.st) /\ (Len(flags) > 0 => flags[Len(flags)])
-RestStart ==
-  IF AllAccepted THEN Min(CutD(fr, cut), HdrEnd(fr))
-  ELSE Min(CutD(fr, cut), Off(fr, Len(flags)))
+\* (operators over a verdict sequence fl, so that the trace specification can compose Refuse and Rest)
+AllAcceptedF(fl) == Len(fl) = NL(fr) /\ (Len(fl) > 0 => fl[Len(fl)])
+RestStartF(fl) ==
+  IF AllAcceptedF(fl) THEN Min(CutD(fr, cut), HdrEnd(fr))
+  ELSE Min(CutD(fr, cut), Off(fr, Len(fl)))
 \* a leaf layer consumes its body - or keeps any tail of it (behind its fixed part) as raw payload:
 \* the canonical remainder is the empty one at the end, `lo` is the earliest place a kept tail may
 \* begin.  Otherwise every available byte of the datagram behind the accepted headers is kept.
 \* Available link padding is kept or not.
-RestLo ==
-  IF AllAccepted /\ Leaf(fr.st)
-  THEN Min(CutD(fr, cut), Off(fr, Len(fr.st)) + fr.need[Len(fr.st)])
-  ELSE RestStart
-RestLens ==
+RestLoF(fl) ==
+  IF AllAcceptedF(fl) /\ LeafF(fr)
+  THEN Min(CutD(fr, cut), Off(fr, NL(fr)) + NeedAt(fr, NL(fr)))
+  ELSE RestStartF(fl)
+RestLensF(fl) ==
   LET padAv == cut - CutD(fr, cut)
-      base  == IF AllAccepted /\ Leaf(fr.st) THEN 0 ELSE CutD(fr, cut) - RestStart
+      base  == IF AllAcceptedF(fl) /\ LeafF(fr) THEN 0 ELSE CutD(fr, cut) - RestStartF(fl)
   IN {base, base + padAv}
+AllAccepted == AllAcceptedF(flags)
+RestStart == RestStartF(flags)
+RestLo == RestLoF(flags)
+RestLens == RestLensF(flags)
 Rest ==
   /\ pc = "rest" /\ pc' = "print"
   /\ \E n \in RestLens :
@@ -134,37 +182,42 @@ Spec == Init /\ [][Next]_vars /\ WF_vars(Next)
 
 TypeOK == /\ pc \in {"offer", "parse", "rest", "print", "dump", "pack", "done"}
           /\ cut \in 0..Total(fr)
-          /\ Len(flags) <= Len(fr.st)
+          /\ Len(flags) <= NL(fr)
 
 \* the oracle never demands and forbids the same thing
-Decidable == \A i \in 1..Len(fr.st) : ~(Must(fr, cut, i) /\ MustNot(fr, cut, i))
+Decidable == \A i \in 1..NL(fr) : ~(Must(fr, cut, i) /\ MustNot(fr, cut, i))
 
 \* nothing is reported parsed out of bytes that were not offered
-Sound == \A j \in 1..Len(flags) : flags[j] => Off(fr, j) + fr.need[j] <= cut
+Sound == \A j \in 1..Len(flags) : flags[j] => Off(fr, j) + NeedAt(fr, j) <= cut
 
 \* parsing succeeds down a prefix of the stack: at most the last verdict is FALSE
 PrefixClosed == \A j \in 1..Len(flags) : (j < Len(flags)) => flags[j]
 
 \* once the remainder is fixed: it starts where the accepted headers end, lies inside the
 \* offered bytes, and together with the accepted headers covers every offered byte of the datagram
-Accepted == {j \in 1..Len(flags) : flags[j]}
+NAcc == IF Len(flags) > 0 /\ ~flags[Len(flags)] THEN Len(flags) - 1 ELSE Len(flags)   \* (PrefixClosed)
 NoLoss ==
   pc \in {"print", "dump", "pack", "done"} =>
     /\ rest.start + rest.len <= cut
     /\ rest.start <= CutD(fr, cut)
-    /\ (Accepted # {} /\ ~(AllAccepted /\ Leaf(fr.st))) =>
-          LET m == CHOOSE j \in Accepted : \A q \in Accepted : q <= j IN
-          rest.start = Off(fr, m) + fr.hl[m]
-    /\ (~(AllAccepted /\ Leaf(fr.st))) => rest.start + rest.len >= CutD(fr, cut)
+    /\ (NAcc > 0 /\ ~(AllAccepted /\ LeafF(fr))) => rest.start = Off(fr, NAcc) + HlAt(fr, NAcc)
+    /\ (~(AllAccepted /\ LeafF(fr))) => rest.start + rest.len >= CutD(fr, cut)
 
-\* an untruncated well-formed frame is parsed all the way down
+\* an untruncated well-formed frame is parsed all the way down (as far as NestFloor layers)
 WholeFrameParses ==
-  (pc \in {"rest", "print", "dump", "pack", "done"} /\ cut >= DEnd(fr)
-     /\ \A j \in 1..Len(fr.st) : fr.st[j].v # "orig") => AllAccepted
+  (pc \in {"rest", "print", "dump", "pack", "done"} /\ cut >= DEnd(fr) /\ fr.lastOrig = 0)
+     => \A j \in 1..Min(NL(fr), NestFloor) : j <= Len(flags) /\ flags[j]
 
 \* parsing, printing and re-serialising always come to an end (there is no other way out)
 Terminates == <>(pc = "done")
 
 \* ---- export for the replay harness
 Export == (pc = "done") => PrintT(<<"H", ToJson(hist)>>)
+\* ---- export of the deep corpus (input side of the trace validation of deep frames)
+InitDeep == /\ fr \in DeepFrames /\ cut \in Cuts(fr)
+            /\ pc = "offer" /\ flags = <<>> /\ rest = NoRest /\ last = NoObs /\ hist = <<>>
+Stutter == UNCHANGED vars
+ExportDeep == PrintT(<<"D", ToJson([st |-> fr.st, unit |-> fr.unit, n |-> fr.n, post |-> fr.post,
+                                    plen |-> fr.plen, pad |-> fr.pad, cut |-> cut, total |-> Total(fr),
+                                    layers |-> NL(fr)])>>)
 =============================================================================
